@@ -232,9 +232,23 @@ func meshScenario(s Scn, bounds []int) schedlib.Scenario {
 					}
 				}
 			}
+			// observe at the moment the entry point returns (inside the calling thread): a variant that
+			// returns before its workers are done is then seen with missing visits (and as a race)
+			call := root
+			var visitsAtReturn []int
+			extraAtReturn := 0
+			root = func() {
+				call()
+				visitsAtReturn = append([]int{}, visits...)
+				extraAtReturn = extra
+			}
 			oracle := func(x vsched.Exec) (string, *core.Violation) {
 				fail := func(clause, detail string) (string, *core.Violation) {
 					return "mismatch", &core.Violation{Site: site, Clause: clause, Class: partitionClass(n, pool), Detail: s.name() + ": " + detail}
+				}
+				visits, extra := visitsAtReturn, extraAtReturn
+				if len(visits) != n+1 {
+					return fail("every element is visited exactly once with its own index", "the entry point did not return")
 				}
 				if extra > 0 {
 					return fail("every element is visited exactly once with its own index", "callback received an index outside the element range")
@@ -404,11 +418,22 @@ func canvasScenario(s Scn, bounds []int) schedlib.Scenario {
 			cv := marching.NewMarchingCanvas(1)
 			var marched modeling.Mesh
 			var root func()
+			// the accumulated canvas is observed (marched sequentially) by the calling thread right after
+			// the entry point returns: a variant returning before its workers finished is seen incomplete
+			obsKey, obsN, obsErr := map[string]string{}, map[string]int{}, ""
+			observe := func() {
+				for _, a := range attrsOf(f) {
+					g := core.Guard(func() { obsKey[a], obsN[a] = triKey(cv.MarchOnAttribute(a, 0), a) })
+					if g.Panicked {
+						obsErr = fmt.Sprintf("marching attribute %s after the parallel accumulation failed: %s", a, g.Msg)
+					}
+				}
+			}
 			switch s.Kind {
 			case "AddFieldParallel":
-				root = func() { cv.AddFieldParallel(f) }
+				root = func() { cv.AddFieldParallel(f); observe() }
 			case "AddFieldParallel2":
-				root = func() { cv.AddFieldParallel2(f) }
+				root = func() { cv.AddFieldParallel2(f); observe() }
 			case "MarchParallel":
 				cv.AddField(f) // sequential accumulation; the parallel march is what is explored
 				root = func() { marched = cv.MarchOnAttributeParallel(modeling.PositionAttribute, 0) }
@@ -425,15 +450,16 @@ func canvasScenario(s Scn, bounds []int) schedlib.Scenario {
 					}
 					return "ok", nil
 				}
+				if obsErr != "" {
+					return fail(obsErr)
+				}
 				for _, a := range attrsOf(f) {
-					var k string
-					var n int
-					g := core.Guard(func() { k, n = triKey(cv.MarchOnAttribute(a, 0), a) })
-					if g.Panicked {
-						return fail(fmt.Sprintf("marching attribute %s after the parallel accumulation failed: %s", a, g.Msg))
+					k, ok := obsKey[a]
+					if !ok {
+						return fail("the entry point did not return")
 					}
 					if k != ref.keys[a] {
-						return fail(fmt.Sprintf("attribute %s: canvas filled in parallel marches to %d triangles, sequentially filled canvas to %d (or differing vertices)", a, n, ref.count[a]))
+						return fail(fmt.Sprintf("attribute %s: canvas filled in parallel marches to %d triangles, sequentially filled canvas to %d (or differing vertices)", a, obsN[a], ref.count[a]))
 					}
 				}
 				return "ok", nil
